@@ -1317,7 +1317,7 @@ class _ExprNorm(ast.NodeTransformer):
         if isinstance(node.func, ast.Lambda) and not node.keywords and not any(isinstance(a, ast.Starred) for a in node.args):
             la = node.func.args
             if not (la.vararg or la.kwarg or la.kwonlyargs or la.defaults or la.posonlyargs) and len(la.args) == len(node.args) \
-                    and all(isinstance(a, ast.Constant) or norm._attr_chain(a) is not None for a in node.args):
+                    and all(isinstance(a, ast.Constant) or norm._attr_chain(a) is not None or norm.is_reference(a) for a in node.args):
                 return norm._Subst({p_.arg: a for p_, a in zip(la.args, node.args)}).visit(copy.deepcopy(node.func.body))
         # dict(((k1, v1), (k2, v2))) -> {k1: v1, k2: v2}
         if f == "dict" and len(node.args) == 1 and not node.keywords and isinstance(node.args[0], (ast.Tuple, ast.List)) \
@@ -1711,11 +1711,38 @@ class _FoldConst(ast.NodeTransformer):
             return node.body if node.test.value else node.orelse
         return node
 
-    def visit_Call(self, node):
+    def _getattr(self, node):
         self.generic_visit(node)
         if isinstance(node.func, ast.Name) and node.func.id == "getattr" and len(node.args) == 2 and not node.keywords and isinstance(node.args[1], ast.Constant) \
                 and isinstance(node.args[1].value, str) and node.args[1].value.isidentifier():
             return ast.copy_location(ast.Attribute(value=node.args[0], attr=node.args[1].value, ctx=ast.Load()), node)
+        return node
+
+    def visit_Call(self, node):
+        node = self._getattr(node)
+        if not isinstance(node, ast.Call):
+            return node
+        # next((E for ROW in <literal table> if C), D): the first row whose test holds, written out as a chain of conditional expressions
+        if isinstance(node.func, ast.Name) and node.func.id == "next" and len(node.args) == 2 and not node.keywords and isinstance(node.args[0], ast.GeneratorExp) \
+                and len(node.args[0].generators) == 1 and not node.args[0].generators[0].is_async:
+            g = node.args[0].generators[0]
+            if isinstance(g.iter, (ast.Tuple, ast.List)) and 1 <= len(g.iter.elts) <= 8 and _table_display(g.iter) and norm.is_pure(node.args[1], _PURE_EXT):
+                rows = []
+                for e in g.iter.elts:
+                    mp = _destructure(g.target, e)
+                    if mp is None:
+                        return node
+                    rows.append(mp)
+                out = node.args[1]
+                for mp in reversed(rows):
+                    elt = norm._Subst(dict(mp)).visit(copy.deepcopy(node.args[0].elt))
+                    conds = [norm._Subst(dict(mp)).visit(copy.deepcopy(c)) for c in g.ifs]
+                    if not conds:
+                        out = elt
+                        continue
+                    test = conds[0] if len(conds) == 1 else ast.BoolOp(op=ast.And(), values=conds)
+                    out = ast.IfExp(test=test, body=elt, orelse=out)
+                return ast.fix_missing_locations(ast.copy_location(out, node))
         return node
 
     def visit_Subscript(self, node):
@@ -1931,6 +1958,22 @@ def inline_table_locals(stmts):
                 setattr(s_, fld, [ast.Pass()] if fld == "body" else [])
         ast.fix_missing_locations(s_)
     return out
+
+
+def _destructure(t, e):
+    """{name: entry} for a (nested) tuple target against a (nested) tuple row of a table display, None if the shapes differ"""
+    if isinstance(t, ast.Name):
+        return {t.id: e} if _table_entry(e) else None
+    if isinstance(t, (ast.Tuple, ast.List)) and isinstance(e, (ast.Tuple, ast.List)) and len(t.elts) == len(e.elts) \
+            and not any(isinstance(x, ast.Starred) for x in list(t.elts) + list(e.elts)):
+        mp = {}
+        for t2, e2 in zip(t.elts, e.elts):
+            r_ = _destructure(t2, e2)
+            if r_ is None:
+                return None
+            mp.update(r_)
+        return mp
+    return None
 
 
 def _table_display(e) -> bool:
@@ -3658,11 +3701,12 @@ class Canon:
         if not (isinstance(call, ast.Call) and isinstance(call.func, ast.Name)):
             return None
         c = module.classes.get(call.func.id)
-        if c is None or not call.func.id.startswith("_") or f"class:{call.func.id}" in known or not c.is_dataclass \
+        is_nt = c is not None and any(u(b_).split(".")[-1] == "NamedTuple" for b_ in c.node.bases)
+        if c is None or not call.func.id.startswith("_") or f"class:{call.func.id}" in known or not (c.is_dataclass or is_nt) \
                 or any(n_ in c.methods for n_ in ("__init__", "__post_init__", "__new__", "__getattr__", "__setattr__", "__getattribute__")) \
                 or any(isinstance(a, ast.Starred) for a in call.args) or any(k.arg is None for k in call.keywords):
             return None
-        fields = [f for f in c.all_fields() if f.init and not f.classvar]
+        fields = [f for f in (c.fields if is_nt else c.all_fields()) if (is_nt or f.init) and not f.classvar]
         params = [f.name for f in fields]
         if len(call.args) > len(params) or any(k.arg not in params for k in call.keywords):
             return None
@@ -4037,8 +4081,8 @@ class Canon:
                     if not (collect(s1.body) and collect(s1.orelse)) or not leaves:
                         continue
                     # x is written only by those last assignments and read only by the tail
-                    uses = sum(1 for n in ast.walk(s1) if isinstance(n, ast.Name) and n.id == x)
-                    if uses != len(leaves):
+                    # (other bindings of x inside the chain sit in branches that leave: never read)
+                    if any(isinstance(n, ast.Name) and n.id == x and isinstance(n.ctx, ast.Load) for n in ast.walk(s1)):
                         continue
                     counts = {}
                     for n in ast.walk(tail[0]):
@@ -4059,6 +4103,16 @@ class Canon:
                         for f_, k_ in counts.items():
                             if f_ not in vals or (k_ > 1 and not (isinstance(vals[f_], ast.Constant) or norm.is_reference(vals[f_]) or norm.is_scalar(vals[f_]))):
                                 ok = False
+                    if not ok and all(f_ in vals or f_ in (module.classes[blk[-1].value.func.id].methods) for blk, vals in leaves for f_ in counts):
+                        # the tail asks the record through its accessors: it is written into each arm as it stands, each arm with its own
+                        # name for the record (the accessors are seen through where the record is projected)
+                        self._srt = getattr(self, "_srt", 0)
+                        for blk, vals in leaves:
+                            self._srt += 1
+                            nm = f"{x}__t{self._srt}"
+                            blk[-1].targets[0] = ast.Name(id=nm, ctx=ast.Store())
+                            blk.append(ast.fix_missing_locations(ast.copy_location(norm._Rename({x: nm}).visit(copy.deepcopy(tail[0])), tail[0])))
+                        return block(b[:i + 1])
                     if not ok:
                         continue
                     for blk, vals in leaves:
@@ -4190,6 +4244,7 @@ class Canon:
         b = self.sroa_value_records(b, module)
         b = norm.thread_none_flags(b)           # a decision recorded in `v is None` and asked again straight afterwards
         b = self.thread_record_flags(b, module, cls)
+        b = self.sink_record_tail(b, module)         # (a tail left over once the `is None` arm went into its branch)
         b = lift_ifexp(self._project_helper_objects(b, module))      # (a record filed in each branch, read by the arm that was moved there)
         b = norm.fold_none_tests(b)             # `if count is not None` on a count a helper just computed
         b = self.thread_sentinels(b, module)
